@@ -267,3 +267,52 @@ def run(chk):
     chk.guard("R3", lambda: r3(chk))
     if chk.tier == "thorough":
         chk.guard("R4", lambda: r4(chk))
+
+    def r5():
+        """The two back-ends print the nodes they PARSED from the input identically (tokens as written); they differ in how they print
+        nodes the generator BUILDS: syn 2 normalises expression paths (inserts `::` before `<..>`, parenthesises sub-expressions) where
+        syn 1 prints the fields as given. So: generator code builds no syn expression / pattern / type node; the only foreign nodes it
+        constructs are position indices (and errors)."""
+        from ..tables import IMPL_FILES
+        repo = chk.repo
+        chk.rule("R5", "no syn AST node whose printing differs between syn 1 and syn 2 is constructed by the generator (allowed: Index, Member, Ident, Lifetime, Error)", floor=5)
+        own = set()
+        for f in IMPL_FILES:
+            for it, _impl, _c in repo.items(f):
+                if it["k"] in ("Struct", "Enum"):
+                    own.add(it["name"])
+        ALLOWED = {"Index", "Member", "Ident", "Lifetime", "Error", "Self"}
+        n = 0
+        for f in IMPL_FILES:
+            for fi in repo.fns(f):
+                seen = {}
+                for node in walk(fi.body):
+                    name = None
+                    if node["k"] == "Struct":
+                        segs = [s_ for s_ in (node.get("path") or "").replace(" ", "").split("::") if s_]
+                        if not segs:
+                            continue
+                        name = segs[-1] if segs[0] in ("syn", "syn2") or segs[0] not in own else None
+                        if name is None or (len(segs) > 1 and segs[0] in own):
+                            continue
+                    elif node["k"] == "Call" and node["func"]["k"] == "Path":
+                        segs = node["func"]["segs"]
+                        cand = [s_ for s_ in segs[:-1] if re.fullmatch(r"(Expr|Pat|Type)[A-Z]\\w*|Expr|Pat|Type|PathSegment|Stmt|Block|Item\\w*|Arm|Local", s_)]
+                        if not cand or segs[0] in own:
+                            continue
+                        name = cand[-1]
+                    else:
+                        continue
+                    n += 1
+                    o = seen.get(name, 0)
+                    seen[name] = o + 1
+                    key = f"{fi.qual}:construct {name}" + (f"#{o}" if o else "")
+                    good = name in ALLOWED
+                    # nodes whose syn-2 printer rewrites what it is given (print_path with PathStyle::Expr; fixup parentheses)
+                    bad = name in ("ExprPath", "ExprStruct", "ExprCall", "ExprMethodCall", "ExprField", "ExprBinary", "ExprUnary", "ExprCast", "ExprReference",
+                                   "ExprRange", "ExprAssign", "ExprIndex", "ExprTry", "PatStruct", "PatTupleStruct", "PatPath")
+                    chk.shape("R5", key, good, bad, f, node["line"],
+                              what="the generator builds a syn expression / pattern node and prints it: syn 1 prints the fields as given, syn 2 normalises (turbofish, parentheses), so the two back-ends emit different tokens",
+                              expected="interpolate the parsed node / tokens instead of building an AST node", found=render(node)[:100])
+        chk.unit("foreign_node_constructions", n)
+    chk.guard("R5", r5)
